@@ -66,6 +66,11 @@ Verdict(line, r) ==
     ELSE IF Own(line.obs.ev) # <<>> THEN "frame_events"
     ELSE ""
 
+(* the observed state is a state of the specification at all (no hole in a lookup, no unknown name) *)
+RepOK(p) ==
+    /\ \A i \in DOMAIN p.hashByEpoch : p.hashByEpoch[i] \in SetNames
+    /\ \A k \in KeyNames : p.status[k] \in {"none", "executed"} \cup MsgNames
+
 InvFailures(s) ==
     (IF LookupsInverse(s) THEN {} ELSE {"LookupsInverse"})
     \cup (IF InstalledWellFormed(s) THEN {} ELSE {"InstalledWellFormed"})
@@ -91,11 +96,17 @@ Consume ==
        THEN \* a fresh deployment: the rotation clock starts at deployment time
             /\ lastRot' = line.pre.now
             /\ bad' = bad
+       ELSE IF ~RepOK(line.pre)
+       THEN \* the implementation has left the specification's state space (reported at the step that did it):
+            \* nothing can be said about this run until the next fresh deployment
+            /\ lastRot' = lastRot
+            /\ bad' = bad
        ELSE LET s == StateOf(line.pre, lastRot)
                 a == ActOf(line.act)
                 r == Apply(s, a)
                 v == Verdict(line, r)
-                inv == InvFailures(StateOf(line.post, lastRot)) \ InvFailures(s)   \* newly broken only
+                inv == IF RepOK(line.post) THEN InvFailures(StateOf(line.post, lastRot)) \ InvFailures(s)   \* newly broken only
+                       ELSE {"Representable"}
                 accepted == v = "" \/ (r.free /\ v = "outcome")
             IN /\ IF accepted /\ inv = {} THEN TRUE ELSE Report(line, r, v, inv)
                /\ bad' = IF accepted /\ inv = {} THEN bad ELSE bad + 1
